@@ -31,36 +31,37 @@ type Item struct {
 }
 
 type VC struct {
-	e          *Engine
-	fn         *ssa.Function
-	c          *Contract
-	decls      []string
-	items      []Item
-	nfresh     int
-	vals       map[ssa.Value]*Val
-	heap0      *Heap
-	globals    map[*ssa.Global]string
-	strlits    map[string]string
-	obCount    map[string]int
-	obs        []*Obligation
-	notes      []string // unsupported / abstracted constructs
-	loops      map[*ssa.BasicBlock]*loopInfo
-	paramEnv   map[string]*Val
-	cur        *blockCtx
-	dropped    map[string]bool // houdini: dropped candidate keys
-	inputs     []inputDesc     // for replay
-	consts     []constFact
-	trusted    map[string]bool
-	callees    map[string]bool
-	intMode    bool
-	rs         *runState
-	csHit      map[*CallSite]bool
-	indexTerms []string
-	tagTypes   map[string]types.Type
-	opaque     map[string]*Val
-	obReturn   map[*Obligation]*ssa.Return
-	paramVals  []*Val
-	entryItems int
+	e             *Engine
+	fn            *ssa.Function
+	c             *Contract
+	decls         []string
+	items         []Item
+	nfresh        int
+	vals          map[ssa.Value]*Val
+	heap0         *Heap
+	globals       map[*ssa.Global]string
+	strlits       map[string]string
+	obCount       map[string]int
+	obs           []*Obligation
+	notes         []string // unsupported / abstracted constructs
+	loops         map[*ssa.BasicBlock]*loopInfo
+	paramEnv      map[string]*Val
+	cur           *blockCtx
+	dropped       map[string]bool // houdini: dropped candidate keys
+	inputs        []inputDesc     // for replay
+	consts        []constFact
+	trusted       map[string]bool
+	callees       map[string]bool
+	intMode       bool
+	rs            *runState
+	csHit         map[*CallSite]bool
+	indexTerms    []string
+	knownNumerals map[string]bool
+	tagTypes      map[string]types.Type
+	opaque        map[string]*Val
+	obReturn      map[*Obligation]*ssa.Return
+	paramVals     []*Val
+	entryItems    int
 }
 
 type constFact struct {
